@@ -152,6 +152,9 @@ def pred_true_set(ctx, fn, cs, depth=0, c_param=1):
         cm = cmp_set(v, c_term)
         if v[0] == "int":
             t, f = (cur, []) if v[1] else ([], cur)
+        elif v[0] == "agg" and v[1] == "adt" and v[2] == "std::result::Result" and v[3] in (0, 1):
+            # a verdict closure |c| -> Result<(), E>: "true" = it refuses (Err)
+            t, f = (cur, []) if v[3] == 1 else ([], cur)
         elif cm is not None:
             t, f = inter(cur, cm), minus(cur, cm)
         elif util.is_call(v) and v[1] in PRED and strip(v[2][0]) == c_term:
@@ -273,6 +276,8 @@ def check(ctx, rep):
     world = ranges.World(ctx)
     pr = world.prover(INNER_FN)
     if len(loops) == 0 and check_bulk(ctx, rep, INNER_FN, se, pr):
+        pass
+    elif len(loops) == 0 and check_bulk_try(ctx, rep, INNER_FN, se, pr):
         pass
     elif len(loops) != 1:
         rep.violation("length-gate", INNER_FN, "shape", "expected one loop over the characters, found %d" % len(loops), body.loc())
@@ -402,6 +407,124 @@ def check_bulk(ctx, rep, INNER_FN, se, pr):
         cur = se.read(se.in_state.get(oks[0][0], {}), arrs[0][0])
         good = len_ok and bool(arr_v) and strip(arr_v[0]) == strip(cur)
     rep.check(good, "normal-form", INNER_FN, "length-field", "length = byte length (<= 16, fits u8), s = the filled array", "the length stored is not the byte length of the input / the array stored is not the filled one", body.loc())
+    return True
+
+
+def check_bulk_try(ctx, rep, INNER_FN, se, pr):
+    """a third spelling without a character loop: `s.chars().try_for_each(|c| if refused(c)
+    { Err(CharacterNotAllowed(c)) } else { Ok(()) })?` (try_for_each stops at the first Err: the
+    first offender, carried out unchanged by `?`), then `core::array::from_fn(|i|
+    s.as_bytes().get(i).map_or(0, u8::to_ascii_uppercase))`: byte i upper-cased below the
+    length, zero above it (all ASCII at that point, so byte k is character k)."""
+    fb = ctx.fb
+    body = se.body
+    calls = [se.term_info[bb] for bb in sorted(se.term_info) if se.term_info[bb].get("k") == "call"]
+    tfs = [c for c in calls if c["name"] == "std::iter::Iterator::try_for_each"]
+    ffs = [c for c in calls if c["name"] in ("std::array::from_fn", "core::array::from_fn")]
+    if len(tfs) != 1 or len(ffs) != 1:
+        return False
+    tf, ff = tfs[0], ffs[0]
+    it = se.call_old.get((tf["site"], 0))
+    it = strip(it) if it is not None else None
+    over_chars = it is not None and util.is_call(it, "core::str::<impl str>::chars") and strip(it[2][0]) == ("param", 1)
+    cl = tf["locargs"][1] if len(tf.get("locargs", ())) > 1 else ("?",)
+    arr_len = None
+    for f in fb.adt_fields(NS):
+        t = fb.ty(f["ty"])
+        if t.k == "array":
+            arr_len = t.len
+    anchor = it[3][1] if over_chars else tf["site"][1]
+    lr = pr.rng(("len", ("param", 1)), anchor)
+    rep.check(arr_len == MAXLEN, "length-gate", INNER_FN, "constant", "array length = %s" % arr_len, "text array length is %s, documented 16" % arr_len)
+    rep.check(lr == (1, MAXLEN), "length-gate", INNER_FN, "dominates", "on every path to the character scan the byte length is in [%s, %s]" % lr, "the character scan is reachable with a byte length in [%s, %s] (must be exactly 1..=16 bytes)" % lr, body.loc())
+    pre = cfg.reachable(body, cut_blocks=[anchor])
+    bad = []
+    for bi in pre:
+        for s_ in body.blocks[bi]["stmts"]:
+            if s_["k"] == "assign" and s_["rv"]["k"] == "aggregate" and s_["rv"].get("ak") == "adt":
+                pth, vn = s_["rv"]["path"], s_["rv"]["vname"]
+                if pth == "std::result::Result" and vn == "Ok" and not _unit_ok(fb, body, s_):
+                    bad.append("Ok")
+                if pth == "error::NormalizedStringError" and vn != "StringTooLong":
+                    bad.append(vn)
+                if pth == NS:
+                    bad.append("NormalizedString")
+    has_tl = any(s_["k"] == "assign" and s_["rv"]["k"] == "aggregate" and s_["rv"].get("vname") == "StringTooLong" for bi in pre for s_ in body.blocks[bi]["stmts"])
+    rep.check(has_tl and not bad, "length-gate", INNER_FN, "too-long-or-empty", "over-long and empty input => Err(StringTooLong), nothing else before the character scan", "before the character scan the function can produce %s / no StringTooLong" % bad, body.loc())
+    # ---- the verdict of the scan is tested by `?` and its error handed on unchanged
+    T = strip(tf["term"])
+    br = [c for c in calls if c["name"].endswith("Result<T, E> as std::ops::Try>::branch") and strip(c["args"][0]) == T]
+    fr = [c for c in calls if "FromResidual" in c["name"]]
+    ns_blocks = [bi for bi, _, _ in util.blocks_constructing(body, NS)]
+    plumbing = False
+    if len(br) == 1 and len(fr) == 1:
+        bt = strip(br[0]["term"])
+        sw = [(bb, i) for bb, i in se.term_info.items() if i.get("k") == "switch" and strip(i["discr"]) == ("discr", bt)]
+        if len(sw) == 1:
+            tg = dict(sw[0][1]["targets"])
+            cont_t, brk_t = tg.get(0), tg.get(1, sw[0][1]["otherwise"])
+            a = strip(fr[0]["args"][0])
+            same = a[0] == "field" and a[1][0] == "downcast" and a[1][2] == 1 and strip(a[1][1]) == bt
+            plumbing = cont_t is not None and same and cfg.must_pass_edge(body, (sw[0][0], brk_t), fr[0]["site"][1]) and all(cfg.must_pass_edge(body, (sw[0][0], cont_t), bi) for bi in ns_blocks)
+    rep.check(over_chars and plumbing, "first-offender", INNER_FN, "chars-in-order", "s.chars().try_for_each(verdict)?: characters are judged in order, the first Err ends the scan and is returned as it is", "the characters are not scanned by s.chars().try_for_each(..)? with its error handed on unchanged", body.loc(tf["site"][1]))
+    if not (over_chars and plumbing) or not (cl[0] == "agg" and cl[1] == "closure" and not cl[4]):
+        rep.undecided("char-set", INNER_FN, "accepted-set", "cannot decide the character set of the scan verdict", body.loc())
+        return True
+    cse = ctx.flat.run(cl[2])
+    errs = {bi: cse.assigns[(bi, si)][1] for bi, si, s_ in util.blocks_constructing(cse.body, "error::NormalizedStringError", "CharacterNotAllowed")} if cse is not None else {}
+    other_err = [1 for bi, si, s_ in util.blocks_constructing(cse.body, "error::NormalizedStringError") if s_["rv"]["vname"] != "CharacterNotAllowed"] if cse is not None else [1]
+    good = bool(errs) and not other_err and all(strip(v[4][0]) == ("param", 2) for v in errs.values())
+    rep.check(good, "first-offender", INNER_FN, "reported-char", "Err(CharacterNotAllowed(c)) carries the character the verdict closure was given", "the reported character is not the offending character", body.loc())
+    rep.check(bool(ns_blocks), "char-set", INNER_FN, "total", "an offender leads to the error (`?`), no offender to the stored text", "no stored text is built", body.loc())
+    rej = pred_true_set(ctx, cl[2], ALL, c_param=2)
+    if rej is None:
+        rep.undecided("char-set", INNER_FN, "accepted-set", "cannot decide the character set of the scan verdict", body.loc())
+        accept = None
+    else:
+        accept = norm_set(minus(ALL, rej))
+        rep.check(accept == ACCEPT, "char-set", INNER_FN, "accepted-set", "accepted characters = %s" % show_set(accept), "accepted character set is %s; wrongly accepted %s, wrongly refused %s" % (show_set(accept), show_set(minus(accept, ACCEPT)), show_set(minus(ACCEPT, accept))), body.loc())
+    # ---- normal form: array[i] = upper(bytes[i]) for i < len, 0 otherwise
+    fcl = ff["locargs"][0] if ff.get("locargs") else ("?",)
+    good = False
+    desc = "?"
+    zero_pad = False
+    if fcl[0] == "agg" and fcl[1] == "closure" and len(fcl[4]) == 1:
+        cap = strip(util.resolve_locals(se, ff["site"][1], fcl[4][0]))
+        while cap[0] in ("ref", "refv"):
+            cap = strip(cap[1])
+        bytes_ok = util.is_call(cap, "core::str::<impl str>::as_bytes") and strip(cap[2][0]) == ("param", 1)
+        fse = ctx.flat.run(fcl[2])
+        if fse is not None and bytes_ok:
+            r = strip(fse.ret)
+            desc = show(r, maxdepth=4)
+            # Option::map_or(bytes.get(i), 0, u8::to_ascii_uppercase)
+            if util.is_call(r, "std::option::Option::<T>::map_or") and len(r[2]) == 3:
+                g, dflt, f_ = strip(r[2][0]), strip(r[2][1]), strip(r[2][2])
+                get_ok = util.is_call(g) and g[1].endswith("<impl [T]>::get") and len(g[2]) == 2 and strip(g[2][1]) == ("param", 2)
+                base = strip(g[2][0]) if get_ok else ("?",)
+                while base[0] in ("deref", "ref", "refv"):
+                    base = strip(base[1])
+                get_ok = get_ok and base == ("field", ("param", 1), 0)
+                up_ok = f_ == ("fn", "core::num::<impl u8>::to_ascii_uppercase")
+                if f_[0] == "agg" and f_[1] == "closure" and not f_[4]:
+                    uv = util.closure_value(ctx, f_, (("U",),))
+                    up_ok = uv is not None and util.is_call(strip(uv), "core::num::<impl u8>::to_ascii_uppercase") and strip(strip(uv)[2][0]) in (("U",), ("deref", ("U",)))
+                zero_pad = dflt[:2] == ("int", 0)
+                good = get_ok and up_ok and zero_pad and accept == ACCEPT
+                desc = "array = from_fn(|i| s.as_bytes().get(i).map_or(0, to_ascii_uppercase)): byte i upper-cased below the length (every accepted character is one ASCII byte)"
+    rep.check(zero_pad, "normal-form", INNER_FN, "zero-padded", "positions at and above the length are 0 (map_or default)", "the text array is not zero-padded")
+    rep.check(good, "normal-form", INNER_FN, "stored-byte", desc, "stored bytes are not the ASCII upper case of the characters at their positions: " + desc, body.loc())
+    oks = [(bi, si) for bi, si, s_ in util.blocks_constructing(body, NS)]
+    good = False
+    if len(oks) == 1:
+        loc, v = se.assigns[oks[0]]
+        tys = [fb.ty(f["ty"]).k for f in fb.adt_fields(NS)]
+        arr_v = [x for x, t in zip(v[4], tys) if t == "array"]
+        len_v = [x for x, t in zip(v[4], tys) if t == "int"]
+        ln = util.numnorm(len_v[0]) if len_v else None
+        len_ok = ln is not None and ln[0] == "cast" and ln[3] == "u8" and ln[2] == ("len", ("param", 1))
+        good = len_ok and bool(arr_v) and strip(arr_v[0]) == strip(ff["term"])
+    rep.check(good, "normal-form", INNER_FN, "length-field", "length = byte length (<= 16, fits u8), s = the array built by from_fn", "the length stored is not the byte length of the input / the array stored is not the one built", body.loc())
     return True
 
 
